@@ -322,6 +322,40 @@ def r4_policy_filter(run):
                           "its result becomes the answer",
                           "result of the restriction filter is discarded",
                           fi.loc(st))
+    # the result of a stage that ran is never thrown away for the unfiltered
+    # identity: `_ava = ava.copy()` only where no stage has produced a result
+    # (`_ava is None`), not where the result is merely empty
+    def _stage(nd):
+        return isinstance(nd.ast, ast.Assign) and any(
+            call_name(c) in ("filter_attribute_value_assertions",
+                             "filter_on_attributes")
+            for c in ast.walk(nd.ast.value) if isinstance(c, ast.Call))
+    stages = [nd for nd in cfg.by_kind("stmt") if _stage(nd)]
+    resets = []
+    for nd in cfg.by_kind("stmt"):
+        st = nd.ast
+        if not isinstance(st, ast.Assign) or _stage(nd) or \
+                not isinstance(st.targets[0], ast.Name):
+            continue
+        got = org.of(st.value, nd.id)
+        if got and all(a.kind == "call" and a.text == "ava.copy" or
+                       a.kind == "param" and a.text == "ava" for a in got):
+            resets.append(nd)
+    run.floor("R4", "filter stages in Policy.filter", len(stages), 3)
+    for nd in resets:
+        tgt = nd.ast.targets[0].id
+        after = [s for s in stages if nd.id in cfg.reachable_from(s.id) and
+                 unparse(s.ast.targets[0]) == tgt]
+        ok = not after or Q("%s is None" % tgt) in facts(cfg, nd.id)
+        run.check(ok, "R4", fi.qual + "::reset-only-when-no-stage-ran::" +
+                  norm_text(nd.ast),
+                  "the unfiltered copy is taken only when no stage produced a "
+                  "result (`%s is None`)" % tgt,
+                  "after a filter stage has run, its (possibly empty) result can "
+                  "be replaced by the unfiltered identity under %s" %
+                  sorted(facts(cfg, nd.id)), fi.loc(nd.ast))
+    run.floor("R4", "unfiltered-copy assignments in Policy.filter",
+              len(resets), 1)
     fr = m.func("assertion.Policy.restrict")
     rcfg = cfg_of(fr, m)
     for r in rcfg.by_kind("return"):
